@@ -92,6 +92,18 @@ def run_case(case):
         nodes[u]["late_glob"] = "lg_%d" % u
         prog["aliases"].append({"name": "lg_%d" % u, "mod": "b", "target": t})
         out["obs"]["programs_with_a_symbol_bound_at_the_end_of_the_module"] += 1
+    # a function calls a memento function of its module by its name and through a module-level modifier clone of it
+    cands = [(u, t) for u in range(len(nodes)) for t in range(u + 1, len(nodes))
+             if nodes[u]["kind"] == "memento" and nodes[t]["kind"] == "memento" and nodes[u]["mod"] == nodes[t]["mod"]
+             and nodes[t]["mod"] in ("a", "b") and nodes[t]["version"] is None]
+    if cands and case["idx"] % 3 == 2:
+        u, t = rng.choice(cands)
+        name = "cl_%s" % nodes[t]["name"]
+        prog["aliases"].append({"name": name, "mod": nodes[u]["mod"], "target": t, "clone": True})
+        if not any(c["t"] == t and c["form"] == "bare" for c in nodes[u]["calls"]):
+            nodes[u]["calls"].append({"t": t, "form": "bare"})
+        nodes[u]["calls"].append({"t": t, "form": "alias", "alias": name})
+        out["obs"]["programs_with_a_module_level_modifier_clone"] += 1
     out["sets"]["features"] |= progs.features(prog)
     fns = [[nd["mod"], nd["name"]] for nd in prog["nodes"] if nd["kind"] == "memento"]
 
